@@ -2,7 +2,7 @@ package main
 
 func init() {
 	register(&propDef{ID: "C13", Title: "The IPs a plugin configures are exactly the IPs IPAM allocated",
-		Explanation: "Decides writer/reader agreement of the three hops: (R1) one Go type at both ends (CommonCniArgs.IPInfos vs the Unmarshal target of cni/ipam.Allocate); (R2) key agreement: JSON tag = IPInfosKey = key the plugin looks up; CniArgs.Common tag = the daemon's anonymous-struct tag; annotation key written by Bind = key read by the daemon; Bind's payload is json(allocateIP result); (R3) IPInfo field types cannot encode the separators, BuildCNIArgs/ParseCNIArgs agree on separators and split key/value with limit 2; (R4) every NetworkInfo created by resolveNetworks passes the loop copying every common.* key, IPInfoToResult takes address, mask and gateway from the same IPInfo, every decoded IPInfo becomes a result; (R5) allocateIP assigns cniArgs.Common.IPInfos a list built from the lookup entries and independent of the value decoded from the pod's existing annotation. (R7) gateway/VLAN/mask of a reported ip come from the pool the ip's table entry points to, created entries take pool and ip from the same unallocated entry; (R9) the allocator's and the lookup's per-range pickers both exclude ips already picked for an earlier range of the same request (k ranges, k distinct ips, also when ranges overlap). Does not decide end-to-end value equality for all configurations (a round trip over runtime values). (R10) getPod has no success return that does not pass the (polled) Pods().Get: the annotation an ADD uses is read in that request. (R11) in cni/ipam.Allocate, from the `ipinfos != \"\"` edge every path reaches the decode; neither a return nor ipam.ExecAdd is reachable without it. (R9, extended) with the matching form in use, every write of an answer slot uses the value of the ip -> range map as index (no fast path past the map). (R12) within an iteration of CmdAdd / CmdDel no path reaches the delegate call without BuildCNIArgs (shared helpers resolved to their call in the function).",
+		Explanation: "Decides writer/reader agreement of the three hops: (R1) one Go type at both ends (CommonCniArgs.IPInfos vs the Unmarshal target of cni/ipam.Allocate); (R2) key agreement: JSON tag = IPInfosKey = key the plugin looks up; CniArgs.Common tag = the daemon's anonymous-struct tag; annotation key written by Bind = key read by the daemon; Bind's payload is json(allocateIP result); (R3) IPInfo field types cannot encode the separators, BuildCNIArgs/ParseCNIArgs agree on separators and split key/value with limit 2; (R4) every NetworkInfo created by resolveNetworks passes the loop copying every common.* key, IPInfoToResult takes address, mask and gateway from the same IPInfo, every decoded IPInfo becomes a result; (R5) allocateIP assigns cniArgs.Common.IPInfos a list built from the lookup entries and independent of the value decoded from the pod's existing annotation. (R7) gateway/VLAN/mask of a reported ip come from the pool the ip's table entry points to, created entries take pool and ip from the same unallocated entry; (R9) the allocator's and the lookup's per-range pickers both exclude ips already picked for an earlier range of the same request (k ranges, k distinct ips, also when ranges overlap). Does not decide end-to-end value equality for all configurations (a round trip over runtime values). (R10) getPod has no success return that does not pass the (polled) Pods().Get: the annotation an ADD uses is read in that request. (R11) in cni/ipam.Allocate, from the `ipinfos != \"\"` edge every path reaches the decode; neither a return nor ipam.ExecAdd is reachable without it. (R9, extended) with the matching form in use, every write of an answer slot uses the value of the ip -> range map as index (no fast path past the map). (R12) within an iteration of CmdAdd / CmdDel no path reaches the delegate call without BuildCNIArgs (shared helpers resolved to their call in the function). (R13) every store to NetworkInfo.Args stores a map that does not come from a package-level variable.",
 		Assumptions: []string{"JSON encoding of net.IP / IPNet / uint16 contains neither ';' nor an unquoted '=' before the first one"},
 		Run: func(c *Ctx) {
 			c.Rule("C13.R1", "writer/reader agreement of the ipinfos path", 6)
@@ -17,6 +17,8 @@ func init() {
 			ruleReportedInRequestOrder(c, "C13.R6")
 			c.Rule("C13.R10", "the pod of an ADD is read from the API server in that request", 1)
 			ruleAddReadsPodFromAPI(c, "C13.R10")
+			c.Rule("C13.R13", "every NetworkInfo owns its args map", 1)
+			ruleFreshArgsMap(c, "C13.R13")
 			c.Rule("C13.R12", "the args of a network are appended for every delegate", 2)
 			ruleNetworkArgsAlwaysAppended(c, "C13.R12")
 			c.Rule("C13.R11", "ipinfos present in the CNI args are always what the plugin configures", 1)
